@@ -4,9 +4,11 @@
    hook H5 (`take_root_lp_ran`).  The optimisers themselves (the optimization and lpsolver modules) are NOT modelled.
 
    A model is described by what was posted, in order (vocabulary of the `solvef` sub-command minus conversions):
-     PLin fl rel vars            m.lin_eq / lin_le / lin_ne with f64 (fl = true) or i32 coefficients: a pending AST, no LP row;
-                                 lowered to FloatLinEq/Le/Ne or IntLinEq/Le/Ne
-     PNew rel vars all_int vv    fluent m.new(l rel r); all_int = every literal of the comparison is an integer literal;
+     PLin fl rel vars            m.lin_eq / lin_le / lin_ne: a pending AST, no LP row at post time; fl = it is lowered to
+                                 FloatLinEq/Le/Ne (f64 coefficients, OR i32 coefficients over at least one float variable --
+                                 see linear_lowering), otherwise to IntLinEq/Le/Ne
+     PNew rel vars all_int vv    fluent m.new(l rel r); all_int = it is lowered to IntLin* (every literal of the comparison is an
+                                 integer literal AND every variable is an integer variable, see linear_lowering);
                                  vv = the comparison is `Var == Val` / `Val == Var` (materialised at once, no AST, no LP row)
      PFlin rel vars              m.props.float_lin_eq / float_lin_le / float_lin_ne (a propagator, no AST)
      PCmp rel a b                m.props.less_than_or_equals / less_than / greater_than_or_equals / greater_than / equals;
@@ -14,6 +16,16 @@
 From Coq Require Import ZArith Bool List.
 Import ListNotations.
 Require Import Selen.Model.Prelude Selen.Model.Propagate.
+
+(* which propagator family a linear constraint AST is materialised as (materialize_constraint_kind, runtime_api/mod.rs,
+   after the repair "linear constraints with integer literals over float variables are posted as float linear constraints"):
+   IntLin* only when every literal is an integer literal and every variable is an integer variable *)
+Inductive lin_kind : Set := KIntLin | KFloatLin.
+Definition linear_lowering (int_literals any_float_var : bool) : lin_kind :=
+  if int_literals && negb any_float_var then KIntLin else KFloatLin.
+(* before the repair the variable types were not consulted *)
+Definition linear_lowering_prefix (int_literals any_float_var : bool) : lin_kind :=
+  if int_literals then KIntLin else KFloatLin.
 
 Inductive frel : Set := RLe | RLt | RGe | RGt | REq | RNe.
 Inductive fpost : Set :=
